@@ -382,8 +382,11 @@ def run(run, model):
     if mir is not None:
         run.try_rule(c06.r06_1, model, mir)
     for fn_ in (c06.r06_3, c06.r06_4, c06.r06_5, c06.r06_9, c07.r07_1, (lambda r, m: c07.r07_2(r, m, None, "C01")), c07.r07_3, c07.r07_4, c07.r07_5, c07.r07_6,
-                c08.r08_1, c08.r08_2, c08.r08_3, c09.r09_2, c09.r09_4, c09.r09_5, c10.r10_3, c02.r02_8):
+                c08.r08_1, c08.r08_2, c08.r08_3, c09.r09_2, c09.r09_4, c09.r09_5, c10.r10_3, c10.r10_8, c02.r02_8):
         run.try_rule(fn_, model)
+    from rules import c11
+    run.rule("R01.7", "a chained tuple projection reads the components the source names (shared with C11 R11.15)")
+    run.try_rule(c11.r11_15, model)
     run.assume("pipeline::compile returns the AST only when lowering pushed no error, so a None after push_error cannot reach later stages")
     run.assume("`?` on a raw CST accessor in ast::lower is sound only if the parser emits that child in every error-free tree (not decided here)")
     run.assume("restructuring arms (decision trees, closure conversion, ANF naming, Go statement shapes) are outside R01.4 by construction: they build a different variant")
